@@ -61,7 +61,7 @@ def post(chk, pairs, stats):
 
 CFG = {
     "id": "C18",
-    "lean_modules": ["GeomV.C18.Proofs"],
+    "lean_modules": ["GeomV.C18.Proofs", "GeomV.C18.ProofsObs"],
     "lean_dirs": ["C18"],
     "exe": "geomv_c18",
     "go_cmd": "c18",
@@ -77,6 +77,8 @@ CFG = {
         "C18_filter",
         "C18_original_condition_incomplete_seq", "C18_original_condition_incomplete_par",
         "specKeep_bounds", "specKeep_tags", "specKeep_all", "C18_provided_keeps",
+        "C18_need_exact", "C18_roots_spec", "C18_observers_schedule_independent", "C18_filter_observers",
+        "C18_geom_no_dropped_point",
     ]],
     "trusted_base": [
         "Lean 4.33.0 kernel; axioms of every theorem printed by #print axioms must be within {propext, Classical.choice, Quot.sound}",
@@ -85,7 +87,8 @@ CFG = {
         "GOMAXPROCS in {2,3,4,16} runs and Filter/Filter-twice compared as sorted id sets",
         "Go memory model and sync.RWMutex: every lock-protected region of extract.go is ONE atomic step of the interleaving model; "
         "data races inside a step are outside the model (thorough tier runs the harness under -race as an informational side check)",
-        "paulmach/osm osmxml scanner delivers the elements of the file in file order (exercised for real by every case); PBF input is not generated (no encoder offline)",
+        "paulmach/osm osmxml and osmpbf scanners deliver the elements of the file in file order (exercised for real by every case; PBF files are "
+        "written by a hand-made encoder in harness/cmd/c18/pbf.go: dense nodes, ways, relations, raw/zlib blobs, 1/3/8000 objects per block, two granularities)",
         "harness/cmd/c18 + lean driver + lib/vcheck.py transport inputs faithfully",
     ],
     "assumptions": [
@@ -106,6 +109,11 @@ CFG = {
             "plus HISTORY cases (2-3 extractions with different keep functions on ONE bytes.Reader that initially stands at 0 / the middle / EOF, "
             "each extraction judged by the Spec for its own keep function) and CANCEL cases (the ReadSeeker cancels the context on its n-th rewind, n=1..4: "
             "Spec = a non-nil error OR exactly the closure, model = error iff the extraction needs >= n passes). "
+            "plus P lines (a PBF rendering of the document in 4 layouts): ExtractPBF at GOMAXPROCS 1 (passes compared with the model) and 4/16/3 with yields, "
+            "ExtractFile (.osm, .pbf, refused extension), ExtractTag, ExtractXML with keepTags=false, the STORED OBJECTS rendered back and compared with the "
+            "document's objects (reference lists: Spec), (*Data).Geom items (roots = stored objects that are not registered dependencies; nodes and ways exactly, "
+            "relations by kind; degenerate-ring panic modelled), (*Data).CountTags and CountTags(ctx, pbf) tables in their sorted order (empty-way panic modelled); "
+            "every steered run of every X line additionally carries a digest of stored objects + Geom + CountTags that must equal the sequential run's. "
             "distinct = distinct input line; non-trivial = verdict class not '*-skipped'",
     "timeout": {"quick": 900, "thorough": 3000},
 }
